@@ -1,9 +1,68 @@
 """C15 -- greenlet stacks: suspended, current, dead, foreign-thread, and greenback bridges.
 Spec: Greenlets.tla (forest evolutions; Expected = the target's own segment; Bridge(d))."""
 import json
+from concurrent.futures import ThreadPoolExecutor
 
 from ..common import BUILD, VERIF, VENV_PY, MachineryError, child_env, run
-from ..tlc import require_coverage, run_tlc
+from ..tlc import derive_cfg, require_coverage, run_tlc
+
+
+def portal(ctx):
+    """greenback portals: Portal.tla (logical stack -> physical structure -> Walk), replayed under Trio"""
+    quick = ctx.tier == "quick"
+    cfg = derive_cfg("Portal.cfg", "Portal_q.cfg", {"MaxDepth": "5" if quick else "7", "MaxSteps": "12" if quick else "16"})
+    r = ctx.tlc(run_tlc("Portal", cfg, timeout=1800, name="portal"), "greenback portal structures, exhaustive under VIEW")
+    if not r.ok:
+        ctx.violation(f"model (Portal): {r.violated}", r.trace_text[-2000:])
+        return
+    require_coverage(r, ["Call", "Return", "Ensure"])
+    # self-test of the specification: without the hook of the F17 fix the model must lose the bridge
+    neg = run_tlc("Portal", derive_cfg("Portal.cfg", "Portal_f17.cfg", {"MaxDepth": "3", "MaxSteps": "4", "FixedF17": "FALSE"}),
+                  timeout=600, name="portal_neg", coverage=False)
+    if neg.ok or neg.violated not in ("BridgeContinuesOutside", "InternalsHidden"):
+        raise MachineryError(f"Portal.tla with FixedF17=FALSE does not violate the bridge invariants ({neg.violated})")
+    behs, seen = [], set()
+
+    def add(emitted):
+        for e in emitted:
+            k = json.dumps(e["acts"], sort_keys=True)
+            if k not in seen:
+                seen.add(k)
+                behs.append(e)
+    x = ctx.tlc(run_tlc("Portal", derive_cfg("Portal_export.cfg", "Portal_x.cfg", {"MaxSteps": "4" if quick else "5", "WithCms": "TRUE"}),
+                        timeout=1800, name="portal_x", coverage=False), "every behaviour of 4 (thorough: 5) actions, with-blocks included")
+    add(x.emitted)
+    nsim = 300 if quick else 4000
+    y = ctx.tlc(run_tlc("Portal", derive_cfg("Portal_export.cfg", "Portal_xs.cfg", {"MaxSteps": "12", "MaxDepth": "6", "WithCms": "TRUE"}),
+                        workers=1, timeout=1800, simulate=f"num={nsim}", depth=14, seed=ctx.seed + 151, name="portal_xs"),
+                "simulated behaviours of 12 actions, depth <= 6")
+    add(y.emitted)
+    if not behs:
+        raise MachineryError("no portal behaviours exported")
+    d = BUILD / "c15"
+    d.mkdir(parents=True, exist_ok=True)
+    nsh = 16
+
+    def shard(i):
+        bp, op = d / f"portal_b{i}.json", d / f"portal_o{i}.json"
+        bp.write_text(json.dumps({"behaviours": behs[i::nsh]}))
+        p, _ = run([VENV_PY, str(VERIF / "harness/drivers/portal_driver.py"), str(bp), str(op)], timeout=3000, env=child_env("3.12"))
+        if p.returncode != 0:
+            raise MachineryError(f"portal driver failed: {p.stderr[-2500:]}")
+        return json.loads(op.read_text())
+    with ThreadPoolExecutor(nsh) as ex:
+        outs = list(ex.map(shard, range(nsh)))
+    nobs = 0
+    for o in outs:
+        ctx.replays += o["n"]
+        nobs += o["observations"]
+        for mm in o["mismatches"]:
+            if str(mm.get("what", "")).startswith("harness"):
+                raise MachineryError(str(mm))
+            ctx.violation("greenback portal, %s observation after %d actions: %s" % (mm.get("where"), mm.get("step", -1), mm["what"]), mm)
+    ctx.note("portal_behaviours", len(behs))
+    ctx.note("portal_observations", nobs)
+    ctx.sample({"portal_behaviour": behs[-1]["acts"], "expected_outside_after_last": behs[-1]["obs"][-1]["outside"]})
 
 
 def check(ctx):
@@ -12,7 +71,13 @@ def check(ctx):
                        "child, by an unrelated greenlet; the expectation is always the target's own segment (entry .. switch "
                        "point), empty for unstarted / dead; simulated behaviours are replayed with command-interpreting greenlet "
                        "bodies; plus a greenlet running / suspended in another thread, and greenback await_ bridges of depth "
-                       "0..3 under Trio observed from outside and inside the task (expected alternation Bridge(d), internals hidden)")
+                       "0..3 under Trio observed from outside and inside the task (expected alternation Bridge(d), internals hidden). "
+                       "Portal.tla models one task's logical call stack (async / sync frames; edges await, plain call, await_, "
+                       "with_portal_run, with_portal_run_sync; ensure_portal; with-blocks incl. greenback.async_context) and derives "
+                       "the physical arrangement greenback makes of it (shim generators, one child greenlet, trampoline, outcome "
+                       "send frames, suspended await chains) and what the traversal can reach given the registered hooks; every "
+                       "behaviour of 4 actions and simulated ones of 12 are replayed in a real Trio task, each real frame list "
+                       "(inside and outside observation after every action) compared frame by frame with the specification's")
     ctx.assume("3.12 only (greenlet / greenback / trio exist only in the project venv); PyPy paths not reachable here")
     r = ctx.tlc(run_tlc("Greenlets", "Greenlets.cfg", timeout=900), "forest evolutions, exhaustive under VIEW")
     if not r.ok:
@@ -55,3 +120,5 @@ def check(ctx):
     if o["greenback_n"] is None:
         ctx.assume("greenback/trio not importable: bridge part skipped")
     ctx.sample({"parents": behs[0]["parent"], "behaviour": behs[0]["acts"][:8]})
+    if o["greenback_n"] is not None:
+        portal(ctx)
